@@ -267,6 +267,10 @@ _op('maxl', lambda c, a, p: [c.rt.max(a[0])], lambda t, a, p: [(max(x[0] for x i
 _op('if_else', lambda c, a, p: [a[0].if_else(a[1], a[2])], lambda t, a, p: [a[1] if a[0][0] else a[2]])
 _op('sum', lambda c, a, p: [c.rt.sum(a[0])],
     lambda t, a, p: [(sum(x[0] for x in a[0]), sum(x[1] for x in a[0]))])
+_op('sum_start', lambda c, a, p: [c.rt.sum(a[0], _val(c, p['start']))],
+    lambda t, a, p: [(sum(x[0] for x in a[0]) + _fr(p['start']), sum(x[1] for x in a[0]) + _fr(p['start']))])
+_op('sum_start_sec', lambda c, a, p: [c.rt.sum(a[0], a[1])],
+    lambda t, a, p: [(sum(x[0] for x in a[0]) + a[1][0], sum(x[1] for x in a[0]) + a[1][1])])
 
 
 def _ref_prod(t, a, p):
@@ -448,6 +452,9 @@ class Gen:
         self.t = make_ref_type(td, cfg)
         self.u = self.t['u']
         self.bound = self.t['bound']
+        if td['l'] > 53:
+            # inputs and outputs are Python floats: keep every value exactly representable (53 bits)
+            self.bound = min(self.bound, Fr(1 << max(2, 52 - td['f'])))
         self.stmts, self.S, self.B, self.L, self.val, self.n = [], [], [], [], {}, 0
 
     def fresh(self):
@@ -462,7 +469,8 @@ class Gen:
     def rand_val(self, integral=None):
         rng = self.rng
         f = self.td['f']
-        ib = self.td['l'] - f - 2           # integer bits available (keep headroom)
+        ib = min(self.td['l'] - f, int(self.bound).bit_length()) - 2           # integer bits available (keep headroom)
+        ib = max(ib, 1)
         r = rng.random()
         if integral is None:
             integral = r < 0.3
@@ -480,34 +488,69 @@ class Gen:
 
     def rand_modulus(self):
         """Public modulus for %: whole (int or float) or with a fractional part, within the type's range."""
-        top = 1 << max(1, self.td['l'] - self.td['f'] - 3)
+        top = 1 << max(1, min(self.td['l'] - self.td['f'], int(self.bound).bit_length()) - 3)
         cands = [c for c in (2, 3, 5, 7, 10, 4, 2.0, 8.0, 2.5, 1.5, 0.75, 0.5, 1.25, 3.25, 6.5) if c < top]
         return self.rng.choice(cands)
 
-    def mod_scenario(self):
-        """Remainder of a whole number by a public modulus (whole or not), then used in products: the remainder's
-        integrality mark must be right whatever the modulus."""
+    def flag_scenario(self):
+        """A value that is NOT whole, made from whole secure values by one operation with a fractional public (or
+        secure) operand -- remainder by a fractional modulus, sum with a fractional start, + - * / by a fractional
+        constant, selection between a whole and a non-whole value -- and then used in products: whatever integrality
+        mark the operation gave its result must be right."""
         rng = self.rng
-        if not self.try_op(rng.choice(('const', 'input')), [],
+
+        def whole():
+            if self.try_op(rng.choice(('const', 'input')), [],
                            {'value': self.rand_val(integral=True), 'sender': 0, 'dummy': self.rand_val(integral=True)}, ['S']):
+                return self.S[-1]
+
+        def nonwhole():
+            if self.try_op(rng.choice(('const', 'input')), [],
+                           {'value': self.rand_val(integral=False), 'sender': 0, 'dummy': self.rand_val(integral=False)}, ['S']):
+                return self.S[-1]
+        a, a2, b = whole(), whole(), nonwhole()
+        if a is None or a2 is None or b is None:
             return
-        a = self.S[-1]
-        if not self.try_op('modc', [a], {'c': self.rand_modulus()}, ['S']):
+        f = self.td['f']
+        frac = rng.choice(([1, 2], [3, 2], [5, 2], [1, 4], [1, 1 << f], [(1 << f) + 1, 1 << f]))
+        kind = rng.choice(('modc', 'sum_start', 'sum_start_sec', 'addc', 'rsubc', 'mulfloat', 'divc', 'if_else', 'min2',
+                           'sum_start', 'modc'))
+        ok = False
+        if kind == 'modc':
+            ok = self.try_op('modc', [a], {'c': self.rand_modulus()}, ['S'])
+        elif kind in ('sum_start', 'sum_start_sec'):
+            if self.try_op('mklist', [a, a2][:rng.randint(1, 2)], {}, ['L']):
+                if kind == 'sum_start':
+                    ok = self.try_op('sum_start', [self.L[-1]], {'start': frac}, ['S'])
+                else:
+                    ok = self.try_op('sum_start_sec', [self.L[-1], b], {}, ['S'])
+        elif kind in ('addc', 'rsubc'):
+            ok = self.try_op(kind, [a], {'c': frac}, ['S'])
+        elif kind == 'mulfloat':
+            ok = self.try_op('mulfloat', [a], {'c': rng.choice((0.5, 1.5, 0.25, 2.0 ** -f))}, ['S'])
+        elif kind == 'divc':
+            ok = self.try_op('divc', [a], {'c': rng.choice((2, 4, 0.5, 8))}, ['S'])
+        elif kind == 'if_else':
+            ok = self.try_op('ltc', [a2], {'c': self.rand_val()}, ['B']) and \
+                self.try_op('if_else', [self.B[-1], a, b] if rng.random() < 0.5 else [self.B[-1], b, a], {}, ['S'])
+        elif kind == 'min2':
+            ok = self.try_op(rng.choice(('min2', 'max2')), [a, b] if rng.random() < 0.5 else [b, a], {}, ['S'])
+        if not ok:
             return
         r = self.S[-1]
-        if not self.try_op(rng.choice(('const', 'input')), [],
-                           {'value': self.rand_val(integral=False), 'sender': 0, 'dummy': self.rand_val(integral=False)}, ['S']):
-            return
-        b = self.S[-1]
         k = rng.random()
         if k < 0.4:
             self.try_op('mul', [r, b] if rng.random() < 0.5 else [b, r], {}, ['S'])
         elif k < 0.7:
             if self.try_op('mklist', [r, a], {}, ['L']) and self.try_op('sum', [self.L[-1]], {}, ['S']):
                 self.try_op('mul', [self.S[-1], b], {}, ['S'])
-        else:
+        elif k < 0.85:
             if self.try_op('mklist', [r, b], {}, ['L']):
                 self.try_op('prod', [self.L[-1]], {}, ['S'])
+        else:
+            if self.try_op('mklist', [r, a], {}, ['L']) and self.try_op('mklist', [b, b], {}, ['L']):
+                opn = rng.choice(('in_prod', 'schur_prod'))
+                self.try_op(opn, [self.L[-2], self.L[-1]], {}, ['S'] if opn == 'in_prod' else ['L'])
 
     def try_op(self, opn, args, p, kinds):
         try:
@@ -646,9 +689,14 @@ class Gen:
                     ok = self.try_op('mklist', [rng.choice(S) for _ in range(n)], {}, ['L'])
                 else:
                     opn = rng.choice(('sum', 'prod', 'in_prod', 'schur_prod', 'scalar_mul', 'matrix_prod',
-                                      'schur_prod', 'vector_add', 'vector_sub', 'if_else_l', 'if_swap_l'))
+                                      'schur_prod', 'vector_add', 'vector_sub', 'if_else_l', 'if_swap_l', 'sum_start'))
                     a = rng.choice(L)
-                    if opn in ('sum', 'prod'):
+                    if opn == 'sum_start':
+                        if rng.random() < 0.5:
+                            ok = self.try_op('sum_start', [a], {'start': self.rand_val()}, ['S'])
+                        else:
+                            ok = self.try_op('sum_start_sec', [a, rng.choice(S)], {}, ['S'])
+                    elif opn in ('sum', 'prod'):
                         ok = self.try_op(opn, [a], {}, ['S'])
                     elif opn == 'scalar_mul':
                         ok = self.try_op(opn, [rng.choice(S), a], {}, ['L'])
@@ -768,8 +816,8 @@ class Gen:
             self.mixed_list_scenario()
         if rng.random() < 0.1:
             self.selection_scenario()
-        if rng.random() < 0.1:
-            self.mod_scenario()
+        if rng.random() < 0.15:
+            self.flag_scenario()
         for _ in range(self.size):
             if self.effects and rng.random() < 0.25:
                 every = self.S + self.L
@@ -791,7 +839,8 @@ class Gen:
 
 
 TYPES = ((8, 4), (12, 4), (16, 8), (20, 8), (24, 8), (32, 16), (40, 16), (48, 16), (32, 8), (24, 12),
-         (38, 19), (36, 18), (12, 6))     # more fractional lengths (Newton iteration counts in _rec differ); l <= 53: outputs are floats
+         (38, 19), (36, 18), (12, 6),     # more fractional lengths (Newton iteration counts in _rec differ)
+         (64, 32), (96, 48), (62, 30))    # l > 53 (other zero-test / comparison branches): value range capped, see Gen.__init__
 
 
 def gen(rng, cfg, tier='quick', effects=False, td=None, size=None, all_outputs=False, trig=None, kf=False):
